@@ -963,10 +963,10 @@ impl Argument {
                 if let Some(value) = self.value_as_f64() {
                     match offset {
                         FixedPointValue::I32(v) => {
-                            Some((value * *quantization as f64) as u64 + *v as u64)
+                            Some(((value * *quantization as f64) as u64).wrapping_add(*v as u64))
                         }
                         FixedPointValue::I64(v) => {
-                            Some((value * *quantization as f64) as u64 + *v as u64)
+                            Some(((value * *quantization as f64) as u64).wrapping_add(*v as u64))
                         }
                     }
                 } else {
